@@ -57,7 +57,7 @@ func (vc *VC) wrapsArrays() (string, string) {
 	for _, n := range []string{"g_wraps_t", "g_wraps_v"} {
 		if !vc.declared[n] {
 			vc.declared[n] = true
-			vc.cmd(fmt.Sprintf("(declare-const %s (Array Int Int))", n))
+			vc.decls = append(vc.decls, fmt.Sprintf("(declare-const %s (Array Int Int))", n))
 		}
 	}
 	return "g_wraps_t", "g_wraps_v"
@@ -173,11 +173,8 @@ func (vc *VC) streamConsts() {
 		return
 	}
 	vc.declared["g_S"] = true
-	vc.cmd("(declare-const g_S (Array Int (_ BitVec 8)))")
-	vc.cmd("(declare-const g_N Int)")
-	vc.cmd("(declare-const g_Ttag Int)")
-	vc.cmd("(declare-const g_Tval Int)")
-	vc.cmd("(assert (and (> g_Ttag 0) (>= g_Tval 0)))")
+	vc.decls = append(vc.decls, "(declare-const g_S (Array Int (_ BitVec 8)))", "(declare-const g_N Int)",
+		"(declare-const g_Ttag Int)", "(declare-const g_Tval Int)", "(assert (and (> g_Ttag 0) (>= g_Tval 0)))")
 }
 
 func (fr *Frame) ghostGet(name string) string {
